@@ -28,13 +28,52 @@ type c12Slot struct {
 }
 
 var c12Modes = []string{"compiled x shared document", "compiled x per-goroutine documents", "one-shot Search x shared document", "concurrent Compile/MustCompile", "NewParser per goroutine",
-	"compiled x shared Go-struct document", "one-shot Search x shared Go-struct document", "one-shot Search x many distinct expressions in rotation"}
+	"compiled x shared Go-struct document", "one-shot Search x shared Go-struct document", "one-shot Search x many distinct expressions in rotation", "compiled x different documents, some failing, several calls per goroutine"}
 
 func gcd(a, b int) int {
 	for b != 0 {
 		a, b = b, a%b
 	}
 	return a
+}
+
+// c12Wild: expressions whose wildcard / projection right-hand side fails on some documents only, and the
+// documents (index%4 == 1: failing) they are run on in mode (i).
+func c12Wild() ([]*gen.Expr, []interface{}) {
+	sv := func() *gen.Expr { return gen.Field("sv") }
+	exprs := []*gen.Expr{
+		gen.Chain(sv(), gen.StStar(), gen.StFunc("join", gen.Raw("/"), gen.Field("tags"))),
+		gen.Chain(sv(), gen.StStar(), gen.StFunc("abs", gen.Field("n"))),
+		gen.Chain(nil, gen.StStar(), gen.StStar(), gen.StFunc("length", gen.Field("tags"))),
+		gen.Chain(sv(), gen.StStar(), gen.StField("tags"), gen.StListStar(), gen.StFunc("length", gen.Current())),
+		gen.Chain(gen.Field("rows"), gen.StListStar(), gen.StStar(), gen.StFunc("abs", gen.Current())),
+		gen.Pipe(gen.Chain(sv(), gen.StStar()), gen.Func("length", gen.Current())),
+		gen.Func("sum", gen.Chain(sv(), gen.StStar(), gen.StField("n"))),
+		gen.Chain(gen.Field("rows"), gen.StFilter(gen.Cmp(">", gen.Func("abs", gen.Field("a")), gen.LitJSON("0"))), gen.StField("a")),
+		gen.Func("sort_by", gen.Chain(sv(), gen.StStar()), gen.ExpRef(gen.Field("n"))),
+		gen.Chain(sv(), gen.StStar(), gen.StMultiList(gen.Field("n"), gen.Func("join", gen.Raw(","), gen.Field("tags")))),
+		gen.Func("map", gen.ExpRef(gen.Func("abs", gen.Field("a"))), gen.Field("rows")),
+		gen.Chain(gen.Field("rows"), gen.StFlatten(), gen.StFunc("abs", gen.Field("a"))),
+	}
+	var ds []interface{}
+	for d := 0; d < 8; d++ {
+		tag := func(q int) interface{} { return fmt.Sprintf("t%d-%d", d, q) }
+		var odd interface{} = "odd"
+		var n2 interface{} = float64(d + 2)
+		var t2 interface{} = tag(2)
+		if d%4 == 1 {
+			n2, t2 = "not a number", float64(5)
+		}
+		_ = odd
+		ds = append(ds, map[string]interface{}{
+			"sv": map[string]interface{}{
+				"a": map[string]interface{}{"n": float64(d), "tags": []interface{}{tag(0), tag(1)}},
+				"b": map[string]interface{}{"n": n2, "tags": []interface{}{t2}},
+			},
+			"rows": []interface{}{map[string]interface{}{"a": float64(-d)}, map[string]interface{}{"a": n2}, map[string]interface{}{"a": float64(d) + 0.5}},
+		})
+	}
+	return exprs, ds
 }
 
 func c12Exprs(seed uint64) []*gen.Expr {
@@ -97,7 +136,7 @@ func c12Exprs(seed uint64) []*gen.Expr {
 }
 
 func c12(r *mon.Run) {
-	r.Rule = "rounds of N in {2,4,16} goroutines released together (GOMAXPROCS 2 and 16), with no synchronisation between them until they are joined: (a) one compiled expression on one shared document, (b) one compiled expression on per-goroutine documents, (c) the one-shot Search on a shared document, (d) concurrent Compile / MustCompile of the same and of different expressions, (e) NewParser per goroutine, (f) a freshly compiled expression and (g) the one-shot Search on a shared Go-struct document (reflection paths; the first calls on a type are the concurrent ones), (h) the one-shot Search with 70 / 140 / 300 distinct expressions in rotation, every goroutine in its own order (package-level caches see hits, misses and evictions at once); " +
+	r.Rule = "rounds of N in {2,4,16} goroutines released together (GOMAXPROCS 2 and 16), with no synchronisation between them until they are joined: (a) one compiled expression on one shared document, (b) one compiled expression on per-goroutine documents, (c) the one-shot Search on a shared document, (d) concurrent Compile / MustCompile of the same and of different expressions, (e) NewParser per goroutine, (f) a freshly compiled expression and (g) the one-shot Search on a shared Go-struct document (reflection paths; the first calls on a type are the concurrent ones), (h) the one-shot Search with 70 / 140 / 300 distinct expressions in rotation, every goroutine in its own order (package-level caches see hits, misses and evictions at once), (i) one compiled expression whose wildcard / projection right-hand side fails on a quarter of 8 documents, 12 calls per goroutine over those documents (error paths of one call meet the scratch state of another); " +
 		"expressions: the function matrix of C06 with document-fed and literal-fed arguments (literals live in the shared AST), sorts of sorts, six expressions 260 operators deep or long (|| and && chains as filter conditions over 24 elements, pipes, nots, nested multi-selects), raw-string-heavy expressions, every node kind, seeded random trees. Monitors: the race detector (any report with a library frame), every goroutine's result against the reference model's allowed set, the compiled AST before/after, and the process surviving (fatal errors are seen by the driver). " +
 		"Non-trivial = distinct (mode, N, expression) rounds whose calls really overlapped in time (measured from per-goroutine timestamps)."
 	r.Floor = 200
@@ -108,6 +147,7 @@ func c12(r *mon.Run) {
 		r.Inconclusive("no race log: started without the driver (VH_RACELOG); only result comparison is active")
 	}
 	trees := c12Exprs(r.Seed)
+	wildTrees, wildDocs := c12Wild()
 	var baseDoc interface{} = c06BaseDoc()
 	rounds := tierPick(r, 7000, 100000)
 	prevProcs := runtime.GOMAXPROCS(0)
@@ -157,10 +197,27 @@ func c12(r *mon.Run) {
 			for k := range pdocs {
 				pdocs[k] = withSpare(doc)
 			}
+			var wres []ref.Result // mode 8: expected outcome per document
+			var wcalls [][]mon.Observed
+			if mode == 8 {
+				tree = wildTrees[(i/len(c12Modes))%len(wildTrees)]
+				expr = gen.Spell(tree)
+				j2, co2 := apiCompile(expr)
+				if co2.Panicked || co2.Err != nil {
+					r.Inconclusive("C12 workload expression does not compile: " + expr)
+					return
+				}
+				jp = j2
+				before = jmespath.VerifSexpr(jmespath.VerifAST(jp))
+				for _, d := range wildDocs {
+					wres = append(wres, ref.RefSet(tree, d, gen.Quirks{}))
+				}
+				wcalls = make([][]mon.Observed, N)
+			}
 			otherExpr := gen.Spell(trees[(i*31+7)%len(trees)])
 			// mode 7: a window of W distinct expressions, each goroutine visits all of them in its own order
 			var wexprs []string
-			var wres []ref.Result
+			var wres7 []ref.Result
 			var wout [][]mon.Observed
 			if mode == 7 {
 				W := []int{70, 140, 70, 300}[(i/len(c12Modes)/3)%4]
@@ -174,7 +231,7 @@ func c12(r *mon.Run) {
 					}
 					seen[e] = true
 					wexprs = append(wexprs, e)
-					wres = append(wres, ref.RefSet(tr, doc, gen.Quirks{}))
+					wres7 = append(wres7, ref.RefSet(tr, doc, gen.Quirks{}))
 				}
 				wout = make([][]mon.Observed, N)
 				for k := range wout {
@@ -219,6 +276,12 @@ func c12(r *mon.Run) {
 							}
 							return nil, nil
 						})
+					case 8:
+						const calls = 12
+						wcalls[k] = make([]mon.Observed, calls)
+						for j := 0; j < calls; j++ {
+							wcalls[k][j] = apiJP(jp, wildDocs[(k*3+j)%len(wildDocs)])
+						}
 					case 7:
 						W := len(wexprs)
 						stride := []int{1, 3, 7, 11, 13, 17, 19, 23}[k%8]
@@ -270,10 +333,19 @@ func c12(r *mon.Run) {
 					return
 				}
 				switch mode {
+				case 8:
+					for j, o := range wcalls[k] {
+						d := (k*3 + j) % len(wildDocs)
+						if o.Panicked || (wres[d].Skipped == "" && !wres[d].DontCare && !matches(wres[d], o)) {
+							r.Violate(&mon.Violation{Workload: "rounds", Index: i, API: c12Modes[mode], Expr: expr, Doc: wildDocs[d], Expected: "what the same call returns when made alone: " + expectedString(wres[d]),
+								Observed: fmt.Sprintf("goroutine %d of %d, call %d: %s", k, N, j, o.String()), Class: "concurrent calls on different documents: result differs"})
+							return
+						}
+					}
 				case 7:
 					for idx, o := range wout[k] {
-						if o.Panicked || (wres[idx].Skipped == "" && !wres[idx].DontCare && !matches(wres[idx], o)) {
-							r.Violate(&mon.Violation{Workload: "rounds", Index: i, API: c12Modes[mode], Expr: wexprs[idx], Doc: doc, Expected: "what the same call returns when made alone: " + expectedString(wres[idx]),
+						if o.Panicked || (wres7[idx].Skipped == "" && !wres7[idx].DontCare && !matches(wres7[idx], o)) {
+							r.Violate(&mon.Violation{Workload: "rounds", Index: i, API: c12Modes[mode], Expr: wexprs[idx], Doc: doc, Expected: "what the same call returns when made alone: " + expectedString(wres7[idx]),
 								Observed: fmt.Sprintf("goroutine %d of %d, one of %d expressions in rotation: %s", k, N, len(wexprs), o.String()), Class: "concurrent one-shot Search over many expressions: result differs"})
 							return
 						}
